@@ -289,9 +289,33 @@ def b1(run, project, roles):
     run.ob("B1", s == want, "writer: byte order default equals the reader's constant",
            f"byteorder argument sources: {sorted(s) if s else None}; reader uses {norm(R['byteorder']) if R['byteorder'] is not None else None}",
            module=base, node=call, func="_INT.to_bytes", construct="to_bytes byteorder")
-    # the `if p is None: p = self.x` guards
-    for p, attr in (("size", "_int_size"), ("signed", "_signed")):
-        pass
+    # the guards, as a decision table over the path summaries: which width / signedness reaches int.to_bytes under which
+    # truth value of `<param> is None` (reaching definitions alone do not see the polarity of the guards)
+    pw, ps_ = (params[1] if len(params) > 1 else "size"), ("signed" if "signed" in params else None)
+    n_tab = 0
+    for p in paths.summarise(base, f):
+        if p.end != "return" or not isinstance(p.value, ast.Call):
+            continue
+        c = p.value
+        a_w = c.args[0] if c.args else kwarg(c, "length")
+        a_s = kwarg(c, "signed")
+        for par, attr, got in ((pw, "self._int_size", a_w), (ps_, "self._signed", a_s)):
+            if par is None or got is None:
+                continue
+            t = p.truth(f"{par} is None")
+            gt = paths.text(got)
+            if t is None:
+                # the argument is chosen without a test on this path: both readings must be offered by a conditional value
+                ok = gt in (f"{attr} if {par} is None else {par}", f"{par} if {par} is not None else {attr}")
+            else:
+                ok = gt == (attr if t else par)
+            n_tab += 1
+            lab = " & ".join(("" if v else "not ") + a for a, v, _ in p.cond) or "always"
+            run.ob("B1", ok, f"_INT.to_bytes [{lab}]: {par} reaches int.to_bytes as {attr if t else par}",
+                   f"on the path [{lab}] int.to_bytes receives `{gt}` for {par}: required is the type's own {attr} exactly when the caller "
+                   f"passed none (`{par} is None`), the caller's value otherwise - a re-encoded value gets a wrong width / signedness",
+                   module=base, node=p.node or call, func="_INT.to_bytes", construct=f"to_bytes {par} guard")
+    run.require(n_tab >= 2, f"B1: only {n_tab} guard obligations for _INT.to_bytes")
     # AlgValue.to_bytes passes everything through
     cm = project.module(CONSTANTS)
     a = cm.functions().get("AlgValue.to_bytes")
